@@ -254,7 +254,8 @@ int main(int argc, char **argv) {
     FILE *out = stdout;
     setvbuf(out, NULL, _IOFBF, 1 << 20);
 
-    while (fgets(line, sizeof line, stdin)) {
+    FILE *ops = stdin;   /* a shim may swap `stdin` for the duration of a call (gets_s) */
+    while (fgets(line, sizeof line, ops)) {
         char *id = NULL, *fn = NULL, *args = NULL;
         char *save = NULL;
         scrub();
@@ -326,6 +327,7 @@ int main(int argc, char **argv) {
             }
         } else {
             in_call = 0;
+            shim_restore_stdin();
             fprintf(out, " fault=%c:", fault_write ? 'w' : 'r');
             print_ptr(out, (void *)fault_addr);
         }
